@@ -695,15 +695,6 @@ func (s *rs_sim) stageName(r *rs_rep) string {
 func (s *rs_sim) crash(r *rs_rep) {
 	stage := s.stageName(r)
 	v := raft.VerifState(r.n)
-	snap0, _ := r.st.Snapshot()
-	inSnap := rs_contains(snap0.Metadata.ConfState.Learners, r.id) || rs_contains(snap0.Metadata.ConfState.Nodes, r.id)
-	if r.learner && !s.noAvoid && !rs_contains(v.Voters, r.id) && !inSnap {
-		// RestartNode does not know the learner role: a replica started as learner that restarts
-		// before its own storage holds the configuration entry adding it comes back as a
-		// non-learner and then refuses the leader's snapshot for good (reported; liveness only)
-		s.inc("learner_crash_avoided")
-		return
-	}
 	if v.Commit > uint64(len(s.cfg.Voters)) {
 		s.inc("crash_after_commit_" + stage)
 	}
@@ -1233,7 +1224,7 @@ func (s *rs_sim) randomStep() {
 			s.tick(r)
 		}
 	case x < 36:
-		if isLeader && s.cfg.Profile != "noconf" && s.cfg.Profile != "growone" {
+		if isLeader && s.cfg.Profile != "noconf" && s.cfg.Profile != "growone" && s.cfg.Profile != "snapdiv" {
 			s.proposeConfRandom(r)
 		} else {
 			s.tick(r)
@@ -1756,6 +1747,138 @@ func (s *rs_sim) scenarioDivergentSuffix(variant int) {
 	}
 }
 
+// applyPages: the application of r takes hand-out pages (one StepNode each) and applies them
+// until it has applied index upto (needs MaxCommittedSizePerReady = 1 for exact control).
+func (s *rs_sim) applyPages(r *rs_rep, upto uint64) {
+	for k := 0; k < 40 && s.live(r) && r.appIdx < upto; k++ {
+		s.finishReady(r)
+		for s.live(r) && len(r.pendq) > 0 && r.appIdx < upto {
+			s.applyOne(r)
+		}
+		if !s.live(r) || r.appIdx >= upto || r.rd != nil {
+			continue
+		}
+		s.take(r, rs_jev{Ev: "poll"}, true, false)
+		s.finishReady(r)
+	}
+}
+
+// scenarioSnapshotOverDivergentTail (profile snapdiv: 5 voters, CheckQuorum off,
+// MaxCommittedSizePerReady = 1; a family derived from MC_ZRaft_Log behaviours with three
+// leaderships): leader X (term t) gets two entries to Y only; Z is elected in t+1 by the three
+// that lack them and appends entries of its own that nobody gets; Y is elected in t+2, commits
+// X's entries, snapshots right at the last of them (an index whose term is t), compacts; Z
+// returns: its probe is rejected and Y sends the snapshot.  Z's log is LONGER than the snapshot
+// and its tail has a HIGHER term but diverges.  variant 1: Z appends nothing after its election
+// (tail of equal length); variant 2: Z is cut off before it even appends (shorter log, plain
+// catch-up by snapshot).  What Z may do with that snapshot is the restore rule of the design.
+func (s *rs_sim) scenarioSnapshotOverDivergentTail(variant int) {
+	s.phase = "snapshot-divergent-tail"
+	s.blocked = map[uint64]bool{}
+	x := s.electLeader()
+	if x == 0 {
+		return
+	}
+	xr := s.reps[x]
+	xv := raft.VerifState(xr.n)
+	var o []uint64
+	for _, id := range xv.Voters {
+		if id != x && s.live(s.reps[id]) {
+			o = append(o, id)
+		}
+	}
+	if len(o) < 4 {
+		return
+	}
+	y, z, a, b := o[0], o[1], o[2], o[3]
+	yr, zr := s.reps[y], s.reps[z]
+	s.calmRounds(3)
+	// 1. X's entries reach Y only
+	s.blocked = map[uint64]bool{z: true, a: true, b: true}
+	for i := 0; i < 2 && s.live(xr); i++ {
+		s.finishReady(xr)
+		if xr.rd == nil {
+			s.proposeSized(xr, 0)
+		}
+		s.calmRounds(2)
+	}
+	base := raft.VerifState(xr.n).Last
+	// 2. Z is elected by Z, a, b; nothing it appends afterwards is replicated
+	s.blocked = map[uint64]bool{x: true, y: true}
+	if variant != 2 {
+		for k := 0; k < 10 && s.live(zr) && raft.VerifState(zr.n).Role != "StateLeader"; k++ {
+			s.finishReady(zr)
+			if k%5 == 0 && zr.rd == nil {
+				s.campaign(zr)
+			}
+			s.calmRounds(1)
+		}
+		if !s.live(zr) || raft.VerifState(zr.n).Role != "StateLeader" {
+			s.blocked = map[uint64]bool{}
+			return
+		}
+		s.blocked[z] = true
+		s.finishReady(zr)
+		if variant == 0 {
+			for i := 0; i < 2 && s.live(zr); i++ {
+				if zr.rd == nil {
+					s.proposeSized(zr, 0)
+				}
+				s.finishReady(zr)
+			}
+		}
+	}
+	// 3. Y is elected by X, Y, a, b and commits X's entries (its application stalls meanwhile)
+	s.blocked = map[uint64]bool{z: true}
+	yr.stallLeft = 1 << 20
+	for k := 0; k < 25 && s.live(yr) && raft.VerifState(yr.n).Role != "StateLeader"; k++ {
+		s.finishReady(yr)
+		if k%5 == 0 && yr.rd == nil {
+			s.campaign(yr)
+		}
+		s.slow = y
+		s.calmRounds(1)
+	}
+	if !s.live(yr) || raft.VerifState(yr.n).Role != "StateLeader" {
+		s.slow, yr.stallLeft = 0, 0
+		s.blocked = map[uint64]bool{}
+		return
+	}
+	for k := 0; k < 8 && s.live(yr) && raft.VerifState(yr.n).Commit < base+1; k++ {
+		s.calmRounds(1)
+	}
+	s.slow, yr.stallLeft = 0, 0
+	if !s.live(yr) || raft.VerifState(yr.n).Commit < base {
+		s.blocked = map[uint64]bool{}
+		return
+	}
+	// 4. Y's application applies exactly up to X's last entry, snapshots there and compacts
+	s.applyPages(yr, base)
+	if !s.live(yr) || yr.appIdx != base {
+		s.blocked = map[uint64]bool{}
+		return
+	}
+	before := s.cnt["snapshots_taken"]
+	s.snapshot(yr)
+	if s.cnt["snapshots_taken"] == before {
+		s.blocked = map[uint64]bool{}
+		return
+	}
+	yr.st.Compact(base)
+	s.drain(yr)
+	// 5. Z returns; what it was sent while cut off is lost
+	kept := s.net[:0]
+	for _, m := range s.net {
+		if m.To != z && m.From != z {
+			kept = append(kept, m)
+		}
+	}
+	s.net = kept
+	s.inc("scenario_snapshot_divergent_tail_healed")
+	s.blocked = map[uint64]bool{}
+	s.calmRounds(10)
+}
+
 // scenarioGrowOne (profile growone; from MC_ZRaft_Conf behaviours and the restart rule): the
 // group grows from the single voter 1; replica 1 snapshots while it is alone, more than one
 // Ready page of ordinary entries and then AddNode 2, AddNode 3 follow in its log; 1 crashes,
@@ -2233,6 +2356,11 @@ func raftsim(args []string) error {
 		}
 		if s.cfg.Profile == "growone" {
 			s.scenarioGrowOne()
+		}
+		if s.cfg.Profile == "snapdiv" && len(s.cfg.Voters) >= 5 && !s.cfg.CQ {
+			for v := 0; v < 3 && !s.panicked; v++ {
+				s.scenarioSnapshotOverDivergentTail((int(*seed) + v) % 3)
+			}
 		}
 		if (s.cfg.Profile == "mixed" || s.cfg.Profile == "noconf") && !s.cfg.PreVote && !s.cfg.CQ && len(s.cfg.Voters) >= 3 {
 			s.scenarioVoteSameTerm()
